@@ -152,7 +152,7 @@ impl Prop for C11 {
             Leg {
                 name: "random",
                 kind: LegKind::Random {
-                    cases: tier.pick(500, 8000),
+                    cases: tier.pick(750, 8000),
                 },
                 workers: 16,
                 build: Build::Normal,
